@@ -232,3 +232,33 @@ func extractOf(c ssa.Value, idx int) ssa.Value {
 	}
 	return nil
 }
+
+// boolEdge: edge a→b establishes that boolean value v is true/false, for Ifs whose
+// condition is a plain boolean (possibly negated), not a comparison.
+func boolEdge(a, b *ssa.BasicBlock) (v ssa.Value, truth bool, ok bool) {
+	ifi := blockIf(a)
+	if ifi == nil || len(a.Succs) != 2 || a.Succs[0] == a.Succs[1] {
+		return nil, false, false
+	}
+	truth = true
+	if a.Succs[1] == b {
+		truth = false
+	} else if a.Succs[0] != b {
+		return nil, false, false
+	}
+	c := ifi.Cond
+	for {
+		if u, isU := c.(*ssa.UnOp); isU && u.Op == token.NOT {
+			truth = !truth
+			c = u.X
+			continue
+		}
+		break
+	}
+	return c, truth, true
+}
+
+// onlyVia: every path from entry to target takes an edge accepted by via.
+func onlyVia(fn *ssa.Function, target ssa.Instruction, via edgePred) bool {
+	return reach(fn, nil, func(i ssa.Instruction) bool { return i == target }, nil, via) == nil
+}
